@@ -106,3 +106,34 @@ Fixpoint run_uses_transposed (d : defaults) (p : pool) (us : list kuse) : list h
   | [] => []
   | u :: r => let '(c, p') := http_client_transposed d p (u_insecure u) (use_nondisk u) in c :: run_uses_transposed d p' r
   end.
+
+(* ------------------------------------------------------------------ the discovery cache between a refresh and its answer
+   (discover.go, method poll of cachedSvcList: the goroutine owning the cached keep_services list of one API host) *)
+Inductive cache_state := CHas (l : list dsvc) | CWaiting.      (* CWaiting: nothing is offered on "latest" *)
+Inductive cache_event :=
+| EvClear                       (* RefreshServiceDiscovery / SIGHUP: `<-ent.clear` *)
+| EvFetched (l : list dsvc).    (* a successful API call: `replace <- next` *)
+Definition cache_step (st : cache_state) (e : cache_event) : cache_state :=
+  match e with
+  | EvClear => CWaiting                       (* wakeup <- ...; current = <-replace : blocks until the next success *)
+  | EvFetched l => CHas l
+  end.
+(* what a KeepClient asking now (discoverServices: `sl := <-cacheEnt.latest`) gets: None = it blocks *)
+Definition cache_offer (st : cache_state) : option (list dsvc) := match st with CHas l => Some l | CWaiting => None end.
+Definition cache_run (st : cache_state) (evs : list cache_event) : cache_state := fold_left cache_step evs st.
+
+(* stage c11refresh: the lists the API served (the last one requested by a refresh whose answer was withheld until the
+   Put had started), and the base URLs the Put's requests went to *)
+Record fcase := { f_lists : list (list dsvc); f_contacted : list string }.
+Definition refresh_spec_b (c : fcase) : bool :=
+  let l := current_list (f_lists c) in
+  negb (uuids_distinct_b l) ||
+  forallb (fun u => existsb (String.eqb u) (map d_url (filter writable_svc (kept l)))) (f_contacted c).
+Definition refresh_check_case (c : fcase) : N := if refresh_spec_b c then 0 else 3.
+Fixpoint refresh_failing_from (i : N) (cs : list fcase) : list (N * N) :=
+  match cs with
+  | [] => []
+  | c :: r => let k := refresh_check_case c in
+              if N.eqb k 0 then refresh_failing_from (N.succ i) r else (i, k) :: refresh_failing_from (N.succ i) r
+  end.
+Definition refresh_failing (cs : list fcase) : list (N * N) := refresh_failing_from 0 cs.
